@@ -25,15 +25,16 @@ MAX_INLINE_DEPTH = 12
 
 
 class Obligation:
-    __slots__ = ("oid", "pc", "goal", "path", "note", "case")
+    __slots__ = ("oid", "pc", "goal", "path", "note", "case", "imprecise")
 
-    def __init__(self, oid, pc, goal, path, note="", case=""):
+    def __init__(self, oid, pc, goal, path, note="", case="", imprecise=None):
         self.oid = oid
         self.pc = list(pc)
         self.goal = goal
         self.path = path
         self.note = note
         self.case = case
+        self.imprecise = imprecise  # reason, when the path used an over-approximation (a `sat` then needs native confirmation)
 
 
 class Frame:
@@ -161,8 +162,14 @@ class Exec:
         if z3.is_true(g):
             self.obligations.append(Obligation(oid, [], z3.BoolVal(True), self.path_id, note, self.case_label))
             return
-        self.obligations.append(Obligation(oid, self.pc, goal, self.path_id, note, self.case_label))
+        self.obligations.append(Obligation(oid, self.pc, goal, self.path_id, note, self.case_label, self.imprecise))
         self.pc.append(goal)
+
+    def over_approximate(self, name, kind, reason):
+        """Replace a value the encoding cannot express by an unconstrained one. Sound for proofs
+        (more behaviours); a counter-model found afterwards must be confirmed natively."""
+        self.imprecise = (self.imprecise + "; " if self.imprecise else "") + reason
+        return self.fresh(name, kind)
 
     def check_sat(self, extra, timeout_ms=3000):
         s = z3.Solver()
@@ -184,6 +191,8 @@ class Exec:
             return self.feas_cache[key]
         r = self.check_sat([cond])
         ok = r != z3.unsat  # unknown counts as feasible (sound: more paths)
+        if r == z3.unknown:
+            self.unknown_feasibility = True
         self.feas_cache[key] = ok
         return ok
 
@@ -366,6 +375,8 @@ class Exec:
             self.shared = {}
             self.heap_fields = {}
             self.boxes = {}
+            self.unknown_feasibility = False
+            self.imprecise = None
             self.path_token = object()
             self.path_id = "".join("T" if d else "F" for d in prefix)
             try:
